@@ -114,8 +114,12 @@ def check_diagnostic(s, err_pieces, referr, aspects):
     line, col = int(m.group(1)), int(m.group(2)); msg = m.group(4)
     if line < 1: problems.append(('format', 'line %d < 1' % line))
     if not msg.strip(): problems.append(('format', 'empty message'))
-    if re.search(rb'\b[A-Z][a-z]+(?:[A-Z][a-z]+)+(?:Failed)?\b', msg) and not referr.info.get('allow_ident'):
-        problems.append(('format', 'message contains an internal identifier: %r' % msg[:100]))
+    # internal identifiers: the names of the interpreter's own error variants (read from the current source), e.g. a wrapper that the
+    # renderer failed to unwrap and printed through its derived Display
+    from .core import ENUMS
+    for vn in ENUMS.get('Error', []) + ENUMS.get('MainError', []) + ENUMS.get('ParseError', []) + ENUMS.get('LexError', []):
+        if len(vn) > 6 and re.search(rb'\b' + vn.encode() + rb'\b', msg):
+            problems.append(('format', 'message contains the internal identifier %s: %r' % (vn, msg[:100]))); break
     if referr.loc is not None and referr.kind not in ('lex-intoverflow',):
         if (line, col) != tuple(referr.loc): problems.append(('position', 'reported %d:%d, expected %d:%d (%s)' % (line, col, referr.loc[0], referr.loc[1], referr.kind)))
     k = referr.kind; info = referr.info
